@@ -1,14 +1,14 @@
-\* PNCounter (thorough): 3 replicas, 2 ops (inc, dec, inc_many, dec_many 0/2), any delivery order, merges
+\* GCounter (thorough): 2 replicas, 4 ops (inc, inc_many 0/2), any delivery order, merges; reset_remove with 9 clocks
 CONSTANTS
-  Kind = "pncounter"
-  NReps = 3
-  MaxOps = 2
+  Kind = "gcounter"
+  NReps = 2
+  MaxOps = 4
   Regime = "any"
   UseMerge = TRUE
   UseSnap = FALSE
   UseDup = FALSE
   UniqueMarkers = TRUE
-  DumpReset = FALSE
+  DumpReset = TRUE
   Reps <- MCReps
   Actors <- MCActors
   ActorOf <- MCActorOf
